@@ -226,6 +226,27 @@ for _ in range(60 if tier == "quick" else 1500):
     idx += 1
 samples.append({"sequence": [list(o) for o in list(distinct)[0]] if distinct else []})
 
+# redirects across namespaces looked up without a namespace (PAGESIZE, transclusion fallback): one hop, resolved
+cx = newctx(Path(TMP) / "x.sqlite")
+try:
+    app = [i for i, n in cx.LOCAL_NS_NAME_BY_ID.items() if n == "Appendix"]
+    ans = app[0] if app else 4
+    aname = cx.LOCAL_NS_NAME_BY_ID[ans]
+    cx.add_page(f"{aname}:Glossary", ans, "glossary body")
+    cx.add_page("Glossary", 0, None, redirect_to=f"{aname}:Glossary")
+    cx.add_page("water", 0, "water body")
+    cx.add_page(f"{aname}:Water", ans, None, redirect_to="water")
+    cx.db_conn.commit()
+    for title, want in (("Glossary", "glossary body"), (f"{aname}:Water", "water body"), (f"{aname}:Glossary", "glossary body")):
+        evaluations += 1
+        got = cx.get_page_body(title, None)
+        pg = cx.get_page_resolve_redirect(title, None)
+        if got != want or pg is None or pg.body != want:
+            fail("core:Wtp.get_page_body#one-hop-redirect-resolution",
+                 f"{title!r} looked up without a namespace: body {got!r} want {want!r}", {"title": title, "namespace_id": None},
+                 "cross-namespace-redirect")
+finally:
+    cx.db_conn.close()
 # F: namespace_prefixes returns prefixes ending with ':' for every namespace of every shipped data file
 data = Path(wikitextprocessor.__file__).parent / "data"
 nfiles = nbad = 0
